@@ -493,6 +493,67 @@ def accessor_identity(ctx, pairs, good):
     ctx.floor('CFG-ACCESSORS', 'compared (accessor, initial byte) cells', n, 4000)
 
 
+class _Null:
+    """swallows the verdicts of a rule that is run only for the table it collects"""
+
+    def __init__(self):
+        self.rules_run, self.notes, self.samples, self.assumptions, self.analysed = [], [], [], [], {}
+        self.tier, self.seed = 'quick', 0
+
+    def ok(self, *a, **k):
+        pass
+
+    def violation(self, *a, **k):
+        pass
+
+    def fail_closed(self, *a, **k):
+        pass
+
+    def floor(self, *a, **k):
+        pass
+
+    def sample(self, *a, **k):
+        pass
+
+    def count(self, *a, **k):
+        pass
+
+
+def derive_identity(ctx):
+    """the proc-macro chooses some templates by its *own* cargo features (`cfg!(feature = "std")` / `"alloc"` inside
+    minicbor-derive): the corpus is expanded a second time in a no_std + alloc crate and the error tables of the derived decoders
+    (wrong / missing tag at every framing level, undeclared variant index) are compared probe by probe"""
+    from . import derive_rules
+    ctx.rules_run.append('CFG-DERIVE: the derive corpus expanded in a no_std + alloc crate (minicbor-derive without its std feature) rejects a wrong / missing tag and an '
+                         'undeclared variant index with the same error classes as the std expansion, probe by probe')
+    try:
+        export.ensure(['schemas', 'schemas-alloc'])
+    except export.ExportError as e:
+        ctx.violation('CFG-DERIVE', 'build', 'the derive corpus does not compile in the no_std + alloc configuration: %s' % str(e)[-400:], None)
+        return
+    tabs = {}
+    for cfg in ('schemas', 'schemas-alloc'):
+        load.ALIAS = {'schemas': cfg}
+        reset_caches()
+        try:
+            col = {}
+            derive_rules.c09_errors(_Null(), prog=load.program('schemas'), collect=col)
+            tabs[cfg] = col
+        except Abort as e:
+            ctx.fail_closed('CFG-DERIVE', 'the derived decoders of configuration %s cannot be interpreted: %s' % (cfg, e))
+            return
+        finally:
+            load.ALIAS = {}
+            reset_caches()
+    a, b = tabs['schemas'], tabs['schemas-alloc']
+    for k in sorted(set(a) | set(b)):
+        if a.get(k) == b.get(k):
+            ctx.ok('CFG-DERIVE', k)
+        else:
+            ctx.violation('CFG-DERIVE', k, 'derived Decode answers the probe %s with %s in the std expansion and with %s in the no_std + alloc expansion' % (k, a.get(k), b.get(k)), 'minicbor-derive/src/decode.rs')
+    ctx.floor('CFG-DERIVE', 'probes compared', len(set(a) & set(b)), 60)
+
+
 def run(ctx):
     pairs = QUICK if ctx.tier == 'quick' else THOROUGH
     good = compile_matrix(ctx, pairs)
@@ -502,6 +563,7 @@ def run(ctx):
     same_target = [p for p in pairs if not p[0].endswith('-t32')]
     impl_identity(ctx, same_target, good)
     accessor_identity(ctx, same_target, good)
+    derive_identity(ctx)
     cfg_census(ctx)
     width_twins(ctx)
     from . import c06
